@@ -117,7 +117,7 @@ def dataset_spec(draw, naming=None, dense=None, raw=None, curated=None, features
                  min_nc=2, max_nc=10, max_nt=6, max_ns=40, shanks=None, nan=False,
                  merge_ready=False, raw_backends=('flat', 'flat', 'npy', 'cbin'),
                  full_feature_rows=None, int_templates=None, probe_labels=False, min_nt=2,
-                 big_nt=None, scales=None, footprints=False):
+                 big_nt=None, scales=None, footprints=False, raw_parent=False):
     ns = draw(st.integers(2, 12) | st.integers(2, max_ns))
     nt = draw(st.integers(min_nt, big_nt or max_nt))
     nc = draw(st.integers(min_nc, max_nc))
@@ -203,6 +203,8 @@ def dataset_spec(draw, naming=None, dense=None, raw=None, curated=None, features
     spec['templates'] = t
     w = _opt(draw, whitening, _present)
     spec['wm'] = w
+    if w and not merge_ready and draw(st.integers(0, 5)) == 0:
+        spec['wm_int'] = draw(st.sampled_from(['int32', 'int64', 'int16']))
     spec['wmi_file'] = bool(w and draw(st.booleans()) and not merge_ready)
     spec['sim'] = draw(_present)
     # features
@@ -261,6 +263,8 @@ def dataset_spec(draw, naming=None, dense=None, raw=None, curated=None, features
         else:
             rd['parts'] = [n_raw]
             rd['offset'] = 0
+        if raw_parent and draw(st.integers(0, 2)) == 0:
+            rd['where'] = 'parent'      # the sorter's layout: dat_path = '../<recording>'
         spec['raw'] = rd
     else:
         spec['raw'] = None
@@ -409,6 +413,9 @@ def build(spec, dirpath, write_params=True):
             T.wm = np.triu(T.wm)
         elif kind == 'diag':
             T.wm = np.diag(np.diag(T.wm))
+        if spec.get('wm_int'):
+            # a matrix stored with an integer type (unit upper triangular: exactly invertible)
+            T.wm = (np.triu(rs.randint(-2, 3, size=(nc, nc)), 1) + np.eye(nc)).astype(spec['wm_int'])
         np.save(d / 'whitening_mat.npy', T.wm)
         if spec['wmi_file']:
             T.wmi_file = np.linalg.inv(T.wm) + 0.0
@@ -488,16 +495,17 @@ def build(spec, dirpath, write_params=True):
         dtype = r['dtype']
         offset = r['offset']
         T.raw = rec.values(spec['n_raw'], spec['ncd'], dtype, spec['seed'] % 17)
+        rd_ = d.parent if r.get('where') == 'parent' else d
         if r['backend'] == 'flat':
-            paths = rec.write_flat(d, T.raw, r['parts'], r['offset'], ext=r['ext'],
+            paths = rec.write_flat(rd_, T.raw, r['parts'], r['offset'], ext=r['ext'],
                                    order=r.get('names', 'asc'))
         elif r['backend'] == 'npy':
-            np.save(d / 'raw.npy', T.raw)
-            paths = [d / 'raw.npy']
+            np.save(rd_ / 'raw.npy', T.raw)
+            paths = [rd_ / 'raw.npy']
         else:
-            paths = [rec.write_cbin(d, T.raw, sample_rate=rate,
+            paths = [rec.write_cbin(rd_, T.raw, sample_rate=rate,
                                     chunk_duration=r['chunk'] / rate)]
-        dat_path = [p.name for p in paths]
+        dat_path = [('../' if r.get('where') == 'parent' else '') + p.name for p in paths]
     T.params = dict(dat_path=dat_path, n_channels_dat=spec['ncd'], dtype=dtype, offset=offset,
                     sample_rate=rate, hp_filtered=False)
     if write_params:
